@@ -83,6 +83,8 @@ class MappingMutator(CollectionAttrMutator):
         )
 
     def remove_item(self, key):  # pylint: disable=arguments-renamed,arguments-differ
+        if self.collection is MISSING:  # Nothing to remove from: report it like an empty collection would.
+            self.collection = self._create_collection()
         key, _ = self._extractor(key, raise_if_missing=True)
         del self.collection[key]
         return self
